@@ -4,6 +4,6 @@ go 1.18
 
 require github.com/aundis/formula v0.0.0
 
-require github.com/ericlagergren/decimal v0.0.0-20221120152707-495c53812d05 // indirect
+require github.com/ericlagergren/decimal v0.0.0-20221120152707-495c53812d05
 
 replace github.com/aundis/formula => /repo
